@@ -902,6 +902,9 @@ def int_param(params, md, name, default=0, st=str):
 # phd: Advanced sort support
 
 def nocase(str1, str2):
+    if str1 is _Smallest or str2 is _Smallest:
+        # placeholder of a missing (or None) key: sorts first
+        return cmp(str1, str2)
     return cmp(str1.lower(), str2.lower())
 
 
